@@ -285,31 +285,33 @@ func nlMeasurement(c *nlCase, conc nlConc, text string) Verdict {
 		return fail("badcase", "unknown float class %q", c.FC)
 	}
 	// auxiliary: the library's value against the exact value of the spec's denotation
-	stdWrong := false // the standard parser itself is not correctly rounded on this text (as-built class below)
-	var exact float64
-	var exactOver bool
 	switch c.FC {
 	case "dec", "hex":
 		fd := conc.digits(c.FD)
-		ex, over, ok := nlExact(c.FC, c.FS == 1, fd, conc.digits(c.ED), c.ES, c.FL)
+		ex, exOver, ok := nlExact(c.FC, c.FS == 1, fd, conc.digits(c.ED), c.ES, c.FL)
 		if !ok {
 			return fail("badcase", "cannot evaluate the denotation of %q", nlShort(text))
 		}
-		exact, exactOver = ex, over
-		if over != stdRange || (!over && !nlSameFloat(ex, want)) {
-			// The one known way for strconv to miss the exact value is the deviation the spec names
-			// LosesIntegerDigits: more integer digits than decimal.set's 800-digit buffer.  It is
-			// accepted as that class only if strconv's value is exactly what the as-built model predicts
-			// (the first 800 digits with the decimal point directly after them).
-			ab, abOver, ok2 := 0.0, false, false
-			if c.FC == "dec" && len(fd)-c.FL > nlBufCap {
-				ab, abOver, ok2 = nlExact("dec", c.FS == 1, fd[:nlBufCap], conc.digits(c.ED), c.ES, 0)
+		stdExact := exOver == stdRange && (exOver || nlSameFloat(ex, want))
+		// The deviation the spec names LosesIntegerDigits: more integer digits than decimal.set's
+		// 800-digit buffer.  The as-built model predicts the first 800 digits with the decimal point
+		// directly after them.  (The current standard library has the same decimal.set but usually
+		// never reaches it: its Eisel-Lemire path answers first; where that gives up, strconv shows
+		// the as-built value too.)
+		if c.FC == "dec" && len(fd)-c.FL > nlBufCap {
+			ab, abOver, ok2 := nlExact("dec", c.FS == 1, fd[:nlBufCap], conc.digits(c.ED), c.ES, 0)
+			if !ok2 {
+				return fail("badcase", "cannot evaluate the as-built denotation of %q", nlShort(text))
 			}
-			if !ok2 || abOver != stdRange || (!abOver && !nlSameFloat(ab, want)) {
-				return fail("harness", "text %q: denotation (sign %d digits %s exp %s%s frac %d) rounds to %v (over=%v), strconv.ParseFloat gives %v, %v",
-					nlShort(text), c.FS, nlShort(fd), map[int]string{0: "+", 1: "-"}[c.ES], conc.digits(c.ED), c.FL, ex, over, want, err)
+			if !stdExact && (abOver != stdRange || (!abOver && !nlSameFloat(ab, want))) {
+				return fail("harness", "text %q: exact value %v (over=%v), as-built model %v (over=%v), strconv.ParseFloat gives %v, %v",
+					nlShort(text), ex, exOver, ab, abOver, want, err)
 			}
-			stdWrong = true
+			return nlMeasurementOver800(c, text, line, ex, exOver, ab, abOver, stdExact)
+		}
+		if !stdExact {
+			return fail("harness", "text %q: denotation (sign %d digits %s exp %s%s frac %d) rounds to %v (over=%v), strconv.ParseFloat gives %v, %v",
+				nlShort(text), c.FS, nlShort(fd), map[int]string{0: "+", 1: "-"}[c.ES], conc.digits(c.ED), c.FL, ex, exOver, want, err)
 		}
 	case "inf":
 		if stdRange || !math.IsInf(want, 1-2*c.FS) {
@@ -321,9 +323,6 @@ func nlMeasurement(c *nlCase, conc nlConc, text string) Verdict {
 		}
 	}
 
-	if stdWrong {
-		return nlMeasurementOver800(c, text, line, want, stdRange, exact, exactOver)
-	}
 	rec, bad := nlOne(line)
 	if bad != nil {
 		return *bad
@@ -361,24 +360,29 @@ func nlMeasurement(c *nlCase, conc nlConc, text string) Verdict {
 // nlBufCap is len(decimal.d) in strconv and in benchfmt/internal/bytesconv.
 const nlBufCap = 800
 
-// nlMeasurementOver800 judges a decimal text with more than 800 integer digits, where the standard
-// parser is demonstrably not the correctly rounded value (it loses the dropped digits' magnitude).
-// The statement's first clause decides: the reader must report the correctly rounded value (or a
-// syntax error if that is out of range).  Reporting what the as-built model predicts is the known
-// deviation class "decimal-over-800-integer-digits"; anything else is an ordinary mismatch.
-func nlMeasurementOver800(c *nlCase, text, line string, std float64, stdRange bool, exact float64, exactOver bool) Verdict {
+// nlMeasurementOver800 judges a decimal text with more than 800 integer digits.  The expected value
+// is the correctly rounded exact value of the denotation (what the statement demands; the standard
+// parser returns it too wherever it does not itself fall into decimal.set).  Reporting exactly what
+// the as-built model (NumLit.LosesIntegerDigits) predicts is the deviation class
+// "decimal-over-800-integer-digits"; anything else is an ordinary mismatch.
+func nlMeasurementOver800(c *nlCase, text, line string, exact float64, exactOver bool, asBuilt float64, asBuiltOver bool, stdExact bool) Verdict {
 	rec, bad := nlOne(line)
 	if bad != nil {
 		return *bad
 	}
 	const sig = "decimal-over-800-integer-digits"
+	dropped := len(c.FD) - c.FL - nlBufCap
+	std := "strconv.ParseFloat returns the exact value here"
+	if !stdExact {
+		std = "strconv.ParseFloat shows the same loss on this text"
+	}
 	switch g := rec.(type) {
 	case *benchfmt.SyntaxError:
 		if exactOver {
 			return pass()
 		}
-		if stdRange {
-			return fail(sig, "measurement %q denotes %v; the reader (like strconv, which keeps 800 digits and forgets the magnitude of the rest) reports %v", nlShort(text), exact, g)
+		if asBuiltOver {
+			return fail(sig, "measurement %q denotes %v; the reader keeps 800 digits, forgets the magnitude of the %d integer digits it drops and reports %v (%s)", nlShort(text), exact, dropped, g, std)
 		}
 		return fail("float-rejects-valid", "measurement %q denotes %v, reader reports %v", nlShort(text), exact, g)
 	case *benchfmt.Result:
@@ -389,12 +393,19 @@ func nlMeasurementOver800(c *nlCase, text, line string, std float64, stdRange bo
 		if !exactOver && nlSameFloat(got, exact) {
 			return pass()
 		}
-		if !stdRange && nlSameFloat(got, std) {
-			return Verdict{OK: false, Signature: sig, Want: fmt.Sprint(exact), Got: fmt.Sprint(got),
-				Detail: fmt.Sprintf("measurement %q denotes %v (exactly rounded; out of range=%v); the reader reports %v, the value of strconv.ParseFloat, which keeps 800 digits and forgets the magnitude of the %d integer digits it drops",
-					nlShort(text), exact, exactOver, got, len(c.FD)-c.FL-nlBufCap)}
+		if !asBuiltOver && nlSameFloat(got, asBuilt) {
+			want := fmt.Sprint(exact)
+			if exactOver {
+				want = "syntax error (out of range)"
+			}
+			return Verdict{OK: false, Signature: sig, Want: want, Got: fmt.Sprint(got),
+				Detail: fmt.Sprintf("measurement %q denotes %v; the reader keeps 800 digits, forgets the magnitude of the %d integer digits it drops and reports %v (%s)",
+					nlShort(text), exact, dropped, got, std)}
 		}
-		return fail("float-bits-differ", "measurement %q: reader %v, exact value %v, strconv %v", nlShort(text), got, exact, std)
+		if exactOver {
+			return fail("float-range-not-reported", "measurement %q is out of range, reader reports %v", nlShort(text), got)
+		}
+		return fail("float-bits-differ", "measurement %q: reader %v, exact value %v, as-built model %v", nlShort(text), got, exact, asBuilt)
 	default:
 		return fail("record-shape", "measurement %q: record of type %T", nlShort(text), rec)
 	}
